@@ -519,6 +519,15 @@ class Engine:
         if op in ('Sub', 'SubUnchecked'):
             if not signed: self.obligations.append((f'sub underflow @ {where}', AND(g, ULT(a, b))))
             return SUB(a, b)
+        if op in ('Mul', 'MulUnchecked'):
+            if z3.is_bv_value(a) and z3.is_bv_value(b): return BV((a.as_long() * b.as_long()) % (1 << a.size()), a.size())
+            return a * b
+        if op in ('Div', 'Rem') and z3.is_bv(a):
+            self.panics.append((f'division by zero @ {where}', AND(g, EQ(b, BV(0, b.size())))))
+            if signed: return (a / b) if op == 'Div' else z3.SRem(a, b)
+            return z3.UDiv(a, b) if op == 'Div' else z3.URem(a, b)
+        if op in ('Shl', 'ShlUnchecked'): return a << fit(b, a.size())
+        if op in ('Shr', 'ShrUnchecked'): return (a >> fit(b, a.size())) if signed else z3.LShR(a, fit(b, a.size()))
         if op == 'BitOr': return OR(a, b) if z3.is_bool(a) else a | b
         if op == 'BitAnd': return AND(a, b) if z3.is_bool(a) else a & b
         if op == 'BitXor': return z3.Xor(a, b) if z3.is_bool(a) else a ^ b
